@@ -6,12 +6,24 @@
     against the documented list.
 
     Known finding F18: accident_quarter_to_policy_year conserves totals only if every accident quarter has a
-    non-zero total share (hypothesis of C18_aq_to_py_conservation); C18_aq_to_py_refuted shows what happens
-    otherwise.  Known finding H1: a cell without any observable sub-period is dropped by
+    non-zero total share (hypothesis of C18_aq_to_py_conservation).  For the share table the code computes this
+    holds whenever issuance is continuous (C18_aq_to_py_code_table_covers, so
+    C18_aq_to_py_conservation_continuous has no such hypothesis); for non-continuous issuance with short policies
+    it fails (C18_aq_to_py_code_table_refuted, C18_aq_to_py_refuted).  Known finding H1: a cell without any observable sub-period is dropped by
     disaggregate_experience (C18_disaggregate_unobservable_cell_vanishes); the conservation theorem needs
-    at least one observable sub-period. *)
+    at least one observable sub-period.  Known finding H3: valid weights whose observable prefix sums to zero
+    raise ZeroDivisionError (C18_disaggregate_zero_prefix_raises); the conservation theorem needs a non-zero
+    observable weight (the model surfaces the division by zero as an error, never as a value).
+
+    Not a violation: fields of a cell that are not listed in `fields` do not appear in the sub-period cells.
+    The property ("sub-periods whose values add up to the original") is read for the fields the caller asked to
+    disaggregate (DESIGN 5/C18: "cells whose fields lie in `fields`").  An unsplit field could not be copied to
+    the sub-periods without breaking additivity (re-aggregation would return n times the original), so dropping
+    it is the only additive-consistent behaviour short of refusing; the model does the same ([sub_cell]) and the
+    correspondence check pins the behaviour. *)
 From Coq Require Import ZArith QArith Qabs List Bool Lia.
-From Bermuda Require Import Model.Base Lib.Calendar Model.Blend Model.Units Proofs.BlendP Proofs.UnitsP Proofs.UnitsQ.
+From Bermuda Require Import Model.Base Lib.Calendar Model.Summarize Model.Aggregate.
+From Bermuda Require Import Model.Blend Model.Units Proofs.BlendP Proofs.UnitsP Proofs.UnitsQ Proofs.UnitsAgg Proofs.UnitsShare.
 Import ListNotations.
 Local Open Scope Q_scope.
 
@@ -56,25 +68,60 @@ Theorem C18_disaggregate_cell : forall res_new n ws fields c outs,
 Proof. exact disagg_cell_spec. Qed.
 Print Assumptions C18_disaggregate_cell.
 
-(* `aggregate o disaggregate = id` at the original resolution: NOT proved here (aggregate's model belongs to
-   C08); harness/c18.py checks it on the implementation for every generated fully observable cell.  What is
-   proved is the amount-level core of it: C18_disaggregate_cell (the sub-period cells of one original cell
-   and evaluation date add up to the original value). *)
-Theorem C18_disaggregate_roundtrip_partial : forall res_new n ws fields c outs,
+(* aggregate o disaggregate = id at the original resolution, for a fully observable month-aligned cell of
+   1970-2100 (months a .. a+n*r-1, any n, r >= 1 -- in particular resolutions 3/6/12 with divisor
+   sub-resolutions), fields in `fields`, any weights with non-zero sum.
+   Aggregate side: wp-summ's Model/Aggregate.v, through its loop-free specification [ref_slice] (closed-form
+   windows, the function C08's agg_ref applies to every slice; C08 ties it to the walk model `aggregate` and to
+   the code on every run) and its lemma scv_sum_entry (= C08_window_field_is_sum).
+   Adapter: the Q-valued sub-period cells are read as Base cells with values n/1024 ([cell_of_ucell]); the
+   statement is for disaggregations exactly representable in both (cs').
+   Conclusion: whenever the aggregation yields a result it is exactly ONE cell with the original period,
+   evaluation date and metadata, and every disaggregated additive field carries numerically the original value
+   (the implementation returns floats for ints, hence `value_numeq`).
+   What is left to the per-case check on the real code (harness/c18.py, oracle_reaggregate): the lifting from one
+   original cell to a whole multi-period, multi-slice triangle, and non-representable (non-dyadic) quotients. *)
+Theorem C18_disaggregate_roundtrip : forall wavg rules nl fields c a (r n : nat) ws outs cs' eo prem out,
+  (1 <= a <= 1571)%Z -> (0 < r)%nat -> (0 < n)%nat -> (a + Z.of_nat (n * r) <= 1572)%Z ->
+  aligned c a (Z.of_nat (n * r)) -> (pe c <= ev c)%Z ->
+  length ws = n -> ~ qsum ws == 0 ->
+  disagg_cell r n ws fields c = Ok outs ->
+  Forall2 (fun o c' => cell_of_ucell o = Some c') outs cs' ->
+  ref_slice wavg rules nl (mkArgs (Some (RMonth (Z.of_nat (n * r)))) None (ps c - 1)%Z eo prem) cs' = Ok out ->
+  exists vals,
+    out = [mkCell KCum (ps c) (pe c) (ev c) None (cmeta c) vals] /\
+    forall f v v', Units.mem_str f fields = true -> assoc f (cvals c) = Some v -> v <> VNone ->
+      In (f, v') vals -> lookup_rule rules f = Some (RSum f) ->
+      (prem = true \/ Summarize.mem_str f nl = false) -> value_numeq v' v.
+Proof. exact disaggregate_then_aggregate. Qed.
+Print Assumptions C18_disaggregate_roundtrip.
+
+(* the amount-level core, for ANY dates and any (also non-representable) values: the sub-period cells of one
+   original cell and evaluation date add up to the original value *)
+Theorem C18_disaggregate_amounts : forall res_new n ws fields c outs,
   disagg_cell res_new n ws fields c = Ok outs ->
   (length (observable c (subperiods res_new n c)) <= length ws)%nat ->
   observable c (subperiods res_new n c) <> [] ->
-  forall f v k, mem_str f fields = true -> assoc f (cvals c) = Some v -> v <> VNone ->
+  forall f v k, Units.mem_str f fields = true -> assoc f (cvals c) = Some v -> v <> VNone ->
     qsum (map (fun o => match uassoc f (uvals o) with Some u => usample k u | None => 0 end) outs)
     == vsample k v.
 Proof. intros. eapply disagg_cell_spec; eauto. Qed.
-Print Assumptions C18_disaggregate_roundtrip_partial.
+Print Assumptions C18_disaggregate_amounts.
 
 (* known finding H1: no observable sub-period => the cell silently vanishes *)
 Theorem C18_disaggregate_unobservable_cell_vanishes : forall res_new n ws fields c,
   observable c (subperiods res_new n c) = [] -> disagg_cell res_new n ws fields c = Ok [].
 Proof. exact disagg_cell_unobservable. Qed.
 Print Assumptions C18_disaggregate_unobservable_cell_vanishes.
+
+(* known finding H3: a weight vector that passes the validation (entries in [0,1], sum 1) but whose observable
+   prefix sums to zero makes the renormalisation divide by zero: the call raises instead of splitting the cell *)
+Theorem C18_disaggregate_zero_prefix_raises : forall res_new n ws fields c,
+  observable c (subperiods res_new n c) <> [] ->
+  qsum (firstn (length (observable c (subperiods res_new n c))) ws) == 0 ->
+  disagg_cell res_new n ws fields c = Err OtherError.
+Proof. exact disagg_cell_zero_prefix. Qed.
+Print Assumptions C18_disaggregate_zero_prefix_raises.
 
 Theorem C18_disaggregate_dispatch : forall rt rn w fields tf cells,
   (rn = rt -> disaggregate_experience rt rn w fields tf cells = DSame) /\
@@ -94,6 +141,38 @@ Theorem C18_aq_to_py_conservation : forall ep cells evd f k,
   out_amount ep cells evd f k == in_amount cells evd f k.
 Proof. exact aq_conservation. Qed.
 Print Assumptions C18_aq_to_py_conservation.
+
+(* the share table THE CODE computes (model: code_share_table = policy_years_covered +
+   _policy_earned_premium_share_by_month + monthly_ep_to_quarterly_ep at month-id level, origin on the first of a
+   month; compared with the table recorded from the implementation on every run).  With continuous issuance every
+   period of the triangle containing the first day of a month between the first period's start month f and the
+   last period's end month e has a non-zero total share, for every policy length L >= 1 and origin month ... *)
+Theorem C18_aq_to_py_code_table_covers : forall L quarters f e om q j,
+  (1 <= L)%Z -> In q quarters -> (f <= j <= e)%Z -> in_period q (month_start j) = true ->
+  ~ total_share (code_share_table true L quarters (py_start_ids (py_first_start f om) e)) q == 0.
+Proof. exact code_table_covers. Qed.
+Print Assumptions C18_aq_to_py_code_table_covers.
+
+(* ... hence conservation is unconditional for continuous issuance *)
+Theorem C18_aq_to_py_conservation_continuous : forall L quarters f e om cells evd fld k,
+  (1 <= L)%Z ->
+  (forall c, In c (cells_at evd cells) ->
+     In (cperiod c) quarters /\ exists j, (f <= j <= e)%Z /\ in_period (cperiod c) (month_start j) = true) ->
+  let ep := code_share_table true L quarters (py_start_ids (py_first_start f om) e) in
+  out_amount ep cells evd fld k == in_amount cells evd fld k.
+Proof. exact aq_conservation_continuous. Qed.
+Print Assumptions C18_aq_to_py_conservation_continuous.
+
+(* F18 with the code's own table: non-continuous issuance, 6-month policies, the four quarters of 2020 (month ids
+   600..611), origin January: the fourth quarter gets no share at all *)
+Definition ex_quarters : list period :=
+  [(737425, 737515); (737516, 737606); (737607, 737698); (737699, 737790)]%Z.
+Theorem C18_aq_to_py_code_table_refuted :
+  Qeq_bool (total_share (code_share_table false 6 ex_quarters (py_start_ids (py_first_start 600 1) 611))
+                        (737699, 737790)%Z) 0 = true
+  /\ in_period (737699, 737790)%Z (month_start 609) = true.
+Proof. split; vm_compute; reflexivity. Qed.
+Print Assumptions C18_aq_to_py_code_table_refuted.
 
 (* out_amount is what the emitted cells carry: sample k of field f of the policy-year cell with table tbl is
    the inner sum of out_amount (policy years that emit no cell, or no such field, receive 0: contrib = 0) *)
@@ -187,6 +266,23 @@ Proof.
   vm_compute. reflexivity.
 Qed.
 
+(* the 2020 annual cell evaluated 2020-12-31 (month id 600), quarters with weights 1/8 3/8 1/4 1/4: the four
+   sub-period cells are representable and aggregate back to the original cell *)
+Definition ex_rc : cell :=
+  mkCell KCum 737425%Z 737790%Z 737790%Z None default_meta [(pl, VNum (Num true (1024 * 100)))].
+Example C18_ex_roundtrip :
+  aligned ex_rc 600 (Z.of_nat (4 * 3)) /\
+  exists outs cs',
+    disagg_cell 3 4 [1#8; 3#8; 1#4; 1#4] [pl] ex_rc = Ok outs /\
+    all_some (map cell_of_ucell outs) = Some cs' /\ length cs' = 4%nat /\
+    ref_slice wavg_mask [(pl, RSum pl)] [] (mkArgs (Some (RMonth (Z.of_nat (4 * 3)))) None (ps ex_rc - 1)%Z 0%Z true) cs'
+    = Ok [ex_rc].
+Proof.
+  split; [split; vm_compute; reflexivity|].
+  eexists. eexists. split; [vm_compute; reflexivity|]. split; [vm_compute; reflexivity|].
+  split; [reflexivity|]. vm_compute. reflexivity.
+Qed.
+
 Example C18_ex_aq_to_py :
   covered ex_ep_good ex_cells = true
   /\ (forall c, In c (cells_at 737606%Z ex_cells) -> ~ total_share ex_ep_good (cperiod c) == 0)
@@ -196,6 +292,12 @@ Proof.
   - intros c [H|[H|[]]]; subst c; vm_compute; discriminate.
   - vm_compute. reflexivity.
 Qed.
+
+Example C18_ex_code_table :     (* continuous issuance, 6-month policies: every quarter of 2020 is covered *)
+  forallb (fun q => negb (Qeq_bool (total_share (code_share_table true 6 ex_quarters
+                                                   (py_start_ids (py_first_start 600 1) 611)) q) 0)) ex_quarters = true
+  /\ forallb (fun q => existsb (fun j => in_period q (month_start j)) (ids 600 611)) ex_quarters = true.
+Proof. split; vm_compute; reflexivity. Qed.
 
 Example C18_ex_premium :
   exists ow oe, program_earned_premium 1200 [1; 3] 3 [1; 1] 6 3 0 true = Ok (ow, oe)
